@@ -2203,7 +2203,7 @@ impl Value {
       #[cfg(feature = "u64")]
       Value::U64(v) => Ok(vec![*v.borrow() as usize]),
       #[cfg(feature = "u128")]
-      Value::U128(v) => Ok(vec![*v.borrow() as usize]),
+      Value::U128(v) => Ok(vec![usize::try_from(*v.borrow()).map_err(|_| MechError::new(CannotConvertToTypeError { target_type: "usize" }, None).with_compiler_loc())?]),
       #[cfg(feature = "i8")]
       Value::I8(v) => Ok(vec![*v.borrow() as usize]),
       #[cfg(feature = "i16")]
@@ -2213,7 +2213,7 @@ impl Value {
       #[cfg(feature = "i64")]
       Value::I64(v) => Ok(vec![*v.borrow() as usize]),
       #[cfg(feature = "i128")]
-      Value::I128(v) => Ok(vec![*v.borrow() as usize]),
+      Value::I128(v) => Ok(vec![usize::try_from(*v.borrow()).map_err(|_| MechError::new(CannotConvertToTypeError { target_type: "usize" }, None).with_compiler_loc())?]),
       #[cfg(feature = "f32")]
       Value::F32(v) => Ok(vec![(*v.borrow()) as usize]),
       #[cfg(feature = "f64")]
@@ -2233,7 +2233,7 @@ impl Value {
       #[cfg(all(feature = "matrix", feature = "u64"))]
       Value::MatrixU64(v) => Ok(v.as_vec().iter().map(|x| *x as usize).collect::<Vec<usize>>()),
       #[cfg(all(feature = "matrix", feature = "u128"))]
-      Value::MatrixU128(v) => Ok(v.as_vec().iter().map(|x| *x as usize).collect::<Vec<usize>>()),
+      Value::MatrixU128(v) => v.as_vec().iter().map(|x| usize::try_from(*x).map_err(|_| MechError::new(CannotConvertToTypeError { target_type: "usize" }, None).with_compiler_loc())).collect::<MResult<Vec<usize>>>(),
       #[cfg(all(feature = "matrix", feature = "i8"))]
       Value::MatrixI8(v) => Ok(v.as_vec().iter().map(|x| *x as usize).collect::<Vec<usize>>()),
       #[cfg(all(feature = "matrix", feature = "i16"))]
@@ -2241,7 +2241,7 @@ impl Value {
       #[cfg(all(feature = "matrix", feature = "i32"))]
       Value::MatrixI32(v) => Ok(v.as_vec().iter().map(|x| *x as usize).collect::<Vec<usize>>()),
       #[cfg(all(feature = "matrix", feature = "i128"))]
-      Value::MatrixI128(v) => Ok(v.as_vec().iter().map(|x| *x as usize).collect::<Vec<usize>>()),
+      Value::MatrixI128(v) => v.as_vec().iter().map(|x| usize::try_from(*x).map_err(|_| MechError::new(CannotConvertToTypeError { target_type: "usize" }, None).with_compiler_loc())).collect::<MResult<Vec<usize>>>(),
       #[cfg(all(feature = "matrix", feature = "i64"))]
       Value::MatrixI64(v) => Ok(v.as_vec().iter().map(|x| *x as usize).collect::<Vec<usize>>()),
       #[cfg(all(feature = "matrix", feature = "bool"))]
@@ -2322,7 +2322,7 @@ impl Value {
       #[cfg(feature = "u64")]
       Value::U64(v) => Ok(*v.borrow() as usize),
       #[cfg(feature = "u128")]
-      Value::U128(v) => Ok(*v.borrow() as usize),
+      Value::U128(v) => usize::try_from(*v.borrow()).map_err(|_| MechError::new(CannotConvertToTypeError { target_type: "usize" }, None).with_compiler_loc()),
       #[cfg(feature = "i8")]
       Value::I8(v) => Ok(*v.borrow() as usize),
       #[cfg(feature = "i16")]
@@ -2332,7 +2332,7 @@ impl Value {
       #[cfg(feature = "i64")]
       Value::I64(v) => Ok(*v.borrow() as usize),
       #[cfg(feature = "i128")]
-      Value::I128(v) => Ok(*v.borrow() as usize),
+      Value::I128(v) => usize::try_from(*v.borrow()).map_err(|_| MechError::new(CannotConvertToTypeError { target_type: "usize" }, None).with_compiler_loc()),
       #[cfg(feature = "f32")]
       Value::F32(v) => Ok((*v.borrow()) as usize),
       #[cfg(feature = "f64")]
